@@ -27,12 +27,14 @@ class HandlersLab:
         self.names = {f: k for k, f in self.fn.items()}
         self.ae = AE("ACCEPTOR")
         self.ae.add_supported_context(VERIFICATION)
-        self.ae.acse_timeout = self.ae.dimse_timeout = self.ae.network_timeout = 5
+        self.ae.acse_timeout = self.ae.dimse_timeout = 30
+        self.ae.network_timeout = 120          # no idle expiry within a history, however loaded the machine
         self.server = self.ae.start_server(("127.0.0.1", 0), block=False, evt_handlers=[(evt.EVT_REQUESTED, self._on_requested)])
         self.port = self.server.socket.getsockname()[1]
         self.scu = AE("REQUESTOR")
         self.scu.add_requested_context(VERIFICATION)
-        self.scu.acse_timeout = self.scu.dimse_timeout = self.scu.network_timeout = 5
+        self.scu.acse_timeout = self.scu.dimse_timeout = 30
+        self.scu.network_timeout = 120
 
     def _make(self, e, h):
         def handler(event, *args):
